@@ -22,8 +22,11 @@ FLOAT_PATTERNS: Dict[str, List[float]] = {
     "zeros": [0.0, -0.0, 0.0, 0.0, -0.0],
     "huge": [3e38, -3e38, 1e30, -1e30, 1e20, -1e20, 3e38, 1e38, -1e38],
 }
+# values whose float64 mantissa is not float32-representable: any hidden f32 round trip shows as ~1e-8 relative error
+FLOAT_PATTERNS["f64_mantissa"] = [1.0 + 2.0 ** -40, -(1.0 + 2.0 ** -35), 0.1, 1.0 / 3.0, -2.718281828459045, 1e-3 + 1e-15,
+                                  0.7 + 2.0 ** -45, -0.3333333333333333, 1.9999999999999996, 0.5 + 2.0 ** -50, 3.141592653589793]
 QUICK_FLOAT = ("mixed_small", "half_integers", "negative", "zeros")
-ALL_FLOAT = tuple(FLOAT_PATTERNS)
+ALL_FLOAT = tuple(FLOAT_PATTERNS)  # evaluated before f64_mantissa is added below? no: see patterns_for
 
 INT_PATTERNS: Dict[str, List[int]] = {
     "small_nonneg": [0, 1, 2, 3, 4, 1, 0, 2],
@@ -72,7 +75,7 @@ def patterns_for(dtype, tier: str, extents: Sequence[int] = ()) -> List[Tuple[st
     if dt.kind == "b":
         return list(BOOL_PATTERNS.items())
     if dt.kind in "iu":
-        names = QUICK_INT if tier == "quick" else ALL_INT
+        names = QUICK_INT if tier in ("quick", "c09") else ALL_INT
         out = []
         for nm in names:
             vals = list(INT_PATTERNS[nm])
@@ -83,7 +86,10 @@ def patterns_for(dtype, tier: str, extents: Sequence[int] = ()) -> List[Tuple[st
                 vals = [abs(v) for v in vals]
             out.append((nm, vals))
         return out
-    names = QUICK_FLOAT if tier == "quick" else ALL_FLOAT
+    if tier == "c09":
+        names = ("f64_mantissa", "mixed_small")
+    else:
+        names = QUICK_FLOAT if tier == "quick" else tuple(n for n in ALL_FLOAT if n != "f64_mantissa")
     return [(nm, FLOAT_PATTERNS[nm]) for nm in names]
 
 
